@@ -444,6 +444,9 @@ func c05Scenarios(tier string) []scenario {
 			cfg := explore.Config{P: 2, E: 1, Horizon: 60e9}
 			if tier == "thorough" {
 				cfg = explore.Config{P: 3, E: 2, Horizon: 60e9}
+				if k.Flate && !k.CNCT {
+					cfg.P = 2 // executions that inflate with context takeover are ~10x slower
+				}
 			}
 			scs = append(scs, scenario{Name: prm.name(), Cfg: cfg, Setup: c05RCSetup(prm)})
 		}
